@@ -87,7 +87,17 @@ def _any_text(v) -> str:
 	try:
 		return str(v)
 	except Exception:
+		if isinstance(v, str):
+			return str.__str__(v)   # (a str subclass whose own __str__ raises still has its text)
 		return f"<{type(v).__name__}>"
+
+
+def _quoted(v: str) -> str:
+	"""repr(v) of a string for display, whatever a subclass made of __repr__"""
+	try:
+		return repr(v)
+	except Exception:
+		return str.__repr__(v)
 
 
 def _format_column(col, max_rows: int | None = None) -> List[str]:
@@ -129,11 +139,11 @@ def _format_column(col, max_rows: int | None = None) -> List[str]:
 			out.append(v.isoformat())
 		elif col._dtype and col._dtype.kind is str:
 			# Pure str columns: no quotes (type already known from footer)
-			out.append(str(v) if v is not None else 'None')
+			out.append(_any_text(v) if v is not None else 'None')
 		else:
 			# Object type - quote strings to distinguish from other types
 			if isinstance(v, str):
-				out.append(repr(v))
+				out.append(_quoted(v))
 			else:
 				out.append(_any_text(v))
 
@@ -240,7 +250,7 @@ def _header_rows(display_names, sanitized_names, dtypes):
 			if name == "...":
 				row.append("...")
 			elif _needs_quote(name):
-				row.append(repr(name))
+				row.append(_quoted(name))
 			else:
 				row.append(name if name else "")
 		rows.append(row)
@@ -333,9 +343,9 @@ def _repr_vector(v) -> str:
 	data_width = max(len(s) for s in formatted) if formatted else 0
 	header_width = 0
 	# (a label such as 5 or ('a', 1) is a name too: shown through its text)
-	name_text = v._name if isinstance(v._name, str) or v._name is None else _any_text(v._name)
+	name_text = v._name if type(v._name) is str or v._name is None else _any_text(v._name)
 	if name_text:
-		header_text = repr(name_text) if _needs_quote(name_text) else name_text
+		header_text = _quoted(name_text) if _needs_quote(name_text) else name_text
 		header_width = len(header_text)
 	
 	width = max(data_width, header_width)
